@@ -51,7 +51,7 @@ PROPS = {
         "exhaustive": True,
     },
     "C03": {
-        "theorems": [("GdslModel.Props.C03", "G." + t) for t in ["connect_spec", "Di.tryConnect_spec", "Di.disconnect_found", "Di.disconnect_absent", "Di.isolate_spec", "Un.tryConnect_spec", "Un.disconnect_found_inbound", "Un.disconnect_found_outbound", "Un.disconnect_absent", "Un.isolate_spec", "Di.run_no_panic", "Un.run_no_panic", "Di.connect_disconnect"]],
+        "theorems": [("GdslModel.Props.C03", "G." + t) for t in ["connect_spec", "Di.tryConnect_spec", "Di.disconnect_found", "Di.disconnect_absent", "Di.isolate_spec", "Un.tryConnect_spec", "Un.disconnect_found_inbound", "Un.disconnect_found_outbound", "Un.disconnect_absent", "Un.isolate_spec", "Di.run_no_panic", "Un.run_no_panic", "Di.connect_disconnect", "Un.connect_disconnect"]],
         "level_text": "Machine-checked proof (Lean 4) of the exact list-level effect, return value, unchanged-on-failure and no-panic of connect/try_connect/disconnect/isolate in the model (refinement to the ordered multigraph), for all stores reachable by any history; model tied to all four flavours by exact correspondence on every (state, operation) pair with <=3 nodes and on random histories with random handle provenance; the contract is also evaluated directly on the real lists before/after each call; self-deadlocks of the sync flavours are detected through the lock hook.",
         "level_note": CORR_NOTE + " Handle independence is a modelling assumption (nodes are keys) validated by the generator's handle-provenance dimension, not a theorem.",
         "technique": "Lean 4 refinement proof (operation specs) + model/implementation correspondence (differential) + contract oracle",
